@@ -43,12 +43,14 @@ def replay(verdict, tier, seed, owner):
         masks = c["masks"]
         N = len(masks[0])
         valid_ids = {(b + 1) * 10 + i + 1 for b, m in enumerate(masks) for i, v in enumerate(m) if v}
+        bad_val = {"minf": -np.inf, "nan": np.nan, "pinf": np.inf}
+        invalid = {(b + 1) * 10 + i + 1: bad_val[c["invalid_kind"][b][i]] for b, m in enumerate(masks) for i, v in enumerate(m) if not v}
         log = {"prior": [], "like": []}
 
         def lp(s):
             ids = np.rint(np.asarray(smcdrv.to_np(s.x), dtype=np.float64)[:, 0]).astype(int)
             log["prior"].append(ids.tolist())
-            return s.xp.asarray(np.asarray([(-float(i) if i in valid_ids else -np.inf) for i in ids], dtype=dt))
+            return s.xp.asarray(np.asarray([(-float(i) if i in valid_ids else invalid.get(i, -np.inf)) for i in ids], dtype=dt))
 
         def ll(s):
             ids = np.rint(np.asarray(smcdrv.to_np(s.x), dtype=np.float64)[:, 0]).astype(int)
